@@ -9,7 +9,9 @@
 (* failure that is not one of the documented benign races must fail the sync.            *)
 EXTENDS Integers, Sequences, FiniteSets, TLC, Json
 
-CONSTANTS Bases,     \* subset of {"compInPlace", "compRecreate", "compRolling", "compFinalize", "decorator"}  (compFinalize: the parent is
+CONSTANTS Bases,     \* subset of {"compInPlace", "compRecreate", "compRolling", "compFinalize", "compCustomize", "decorator"}
+                     \* (compCustomize: a customize hook selects a related object and the sync hook's answer depends on the related
+                     \* map it is sent; the hook fault hits the CUSTOMIZE call; compFinalize: the parent is
                      \* being deleted, the finalize hook drains the children and then the finalizer is removed; compRolling: the child kind
                      \* is updated RollingRecreate, so the sync goes through ControllerRevisions and per-revision hook calls)
           Codes,     \* subset of {404, 409, 410, 422, 500, 0}      (0 = transport error / timeout)
@@ -19,7 +21,8 @@ CONSTANTS Bases,     \* subset of {"compInPlace", "compRecreate", "compRolling",
 \* requests of the faulty sync, addressed by verb / kind / name / occurrence
 T(v, k, n, i) == [verb |-> v, kind |-> k, name |-> n, nth |-> i]
 Targets(b) ==
-  IF b = "compFinalize"
+  IF b = "compCustomize" THEN {T("create", "Thing", "a", 1)}
+  ELSE IF b = "compFinalize"
   THEN {T("delete", "Thing", "d", 1), T("delete", "Thing", "e", 1),          \* first sync: the finalize hook wants nothing
         T("get", "Parent", "p", 1), T("updateStatus", "Parent", "p", 1),     \* its status write
         T("get", "Parent", "p", 2), T("update", "Parent", "p", 1)}           \* second sync: finalized, the finalizer is removed (live read, then write)
